@@ -15,7 +15,7 @@ import random
 
 from lx.check import Obligation, Verdict
 from lx.engine import SymStr, eng, sym_value
-from lx.lifted import dedupe, set_eq
+from lx.lifted import TWIN, dedupe, set_eq, twin_lists
 
 PID = "C03"
 BOUNDS = ("histories of up to 2 statements with read sets of up to 3 tables, and of 3 statements with read sets of up to 2 "
@@ -163,6 +163,7 @@ class HistoryOb(Obligation):
         res = SQLLineageHolder.of(DummyMetaDataProvider(), *holders)
         got = ([t.raw_name for t in res.source_tables], [t.raw_name for t in res.target_tables],
                [t.raw_name for t in res.intermediate_tables])
+        got = twin_lists(*got)
         want = spec.roles()
         if skip:
             # x must be gone from every role after its rename (x != y), nothing more is specified
@@ -170,6 +171,7 @@ class HistoryOb(Obligation):
             last = [h for h in hist if h[0] == "rename"][-1]
             if self.seq[-1][0] == "rename" and not bool(last[1] == last[2]):
                 ok = not any(Spec.has(g, last[1]) for g in got)
+            TWIN["n"] = 0     # (sensitivity twin: the roles are not compared on this path)
             return Verdict(ok, {"hist": hist, "got": got, "want": None, "note": skip}, nontrivial=False)
         ok = all(set_eq(g, w) for g, w in zip(got, want))
         return Verdict(ok, {"hist": hist, "got": got, "want": want})
